@@ -24,10 +24,10 @@ def ambiguity(dur, w):
 
 
 def in_ambiguous_band(dur, w):
-    """between the implementation's epsilon (1e-10) and the statement's (1e-9):
-    never generated (the two resolve such a quotient differently)."""
+    """between the implementation's epsilon (1e-10) and the statement's (1e-9), with a 10-20 % guard on either side:
+    never generated (the two resolve such a quotient differently).  Below it both snap to the integer, above it neither does."""
     a = ambiguity(dur, w)
-    return Fraction(5, 10 ** 11) < a < Fraction(1, 10 ** 8)
+    return Fraction(9, 10 ** 11) < a < Fraction(12, 10 ** 10)
 
 
 def counts(min_dur, max_dur, max_silence, w):
